@@ -26,13 +26,24 @@
 //!   {"op":"add_to_heap","k":rid,"m":rid,"name":"h_x","mode":"ref"|"owned"|"edge"}
 //!   {"op":"new_builder","b":rid} {"op":"add_to_builder","k":rid,"b":rid,"name":"g_x"} {"op":"build","b":rid}
 //!   {"op":"from_globals","g":rid,"f":rid}
+//!   carriers = frozen heaps in which NOTHING is allocated, they only record references:
+//!   {"op":"rehome","k":rid,"k2":rid,"mode":"build"|"build_edge"|"heap"|"heap_named","consume":bool}
+//!        handle k2 = the value of handle k moved into a fresh frozen heap: `OwnedFrozen::build` with
+//!        `add_to_frozen_heap` / with `frozen_edge`, or `FrozenHeap::new` + `add_reference` + `into_ref[_named]`
+//!        + `unchecked_new`; `consume` drops handle k afterwards
+//!   {"op":"new_carrier","b":rid,"kind":"heap"|"globals"}     `FrozenHeap::new()` / `GlobalsBuilder::new()` (no stdlib)
+//!   {"op":"add_to_carrier","k":rid,"b":rid,"name":"a","mode":"ref"|"edge"|"raw"}   (globals: 1-char names only,
+//!        so that `build` allocates nothing)
+//!   {"op":"seal_carrier","b":rid}      heap -> handle b over the last value added; globals -> Globals b
 //!   {"op":"clone","r":rid,"as":rid}                   frozen module / handle / globals
 //!   {"op":"drop","r":rid,"where":"main"|<worker index>|"fresh"}
 //! A malformed op (missing rid, wrong kind, busy worker...) gives `"err":"bad-op ..."` and does nothing.
 //!
 //! After every op `check_all` re-encodes every value reachable from every held object and compares
 //! with the encoding recorded the first time (functions are also called with the argument 7), and
-//! reports the real reference graph among the sealed heaps created by the case (`refs`).
+//! reports the real reference graph among the sealed heaps created by the case (`refs`): `r<rid>` = labels of the
+//! heaps referenced by the heap of frozen module / globals rid, `k<rid>` = label of the owner of handle rid,
+//! `o<rid>` = labels of the heaps referenced by that owner.
 
 use std::collections::BTreeMap;
 use std::collections::HashMap;
@@ -64,6 +75,8 @@ use starlark::environment::Module;
 use starlark::eval::Evaluator;
 use starlark::eval::FileLoader;
 use starlark::syntax::AstModule;
+use starlark::values::FrozenHeap;
+use starlark::values::FrozenHeapName;
 use starlark::values::FrozenHeapRef;
 use starlark::values::FrozenValue;
 use starlark::values::OwnedFrozen;
@@ -218,6 +231,88 @@ fn snapshot<'v>(module: &Module<'v>) -> Vec<(String, String)> {
         }
     }
     out
+}
+
+/// The value of a handle as an unbranded frozen value (everything a handle holds is frozen).
+fn frozen_of_handle(h: &Handle) -> FrozenValue {
+    h.by_ref(|v| v.unpack_frozen().expect("value of a frozen heap is frozen"))
+}
+
+/// Record "`heap` depends on the owner of `h`" through one of the public routes; returns the value.
+fn add_handle_to_frozen_heap(h: &Handle, heap: &FrozenHeap, mode: &str) -> Result<FrozenValue, String> {
+    match mode {
+        "ref" => Ok(h
+            .as_ref()
+            .add_to_frozen_heap(heap)
+            .unpack_frozen()
+            .expect("value of a frozen heap is frozen")),
+        "edge" => Ok(h.by_ref_with_reconstructor(|v, r| {
+            r.frozen_edge(heap)
+                .rebrand(*v)
+                .unpack_frozen()
+                .expect("value of a frozen heap is frozen")
+        })),
+        "raw" => {
+            heap.add_reference(h.owner());
+            Ok(frozen_of_handle(h))
+        }
+        x => Err(format!("bad-op mode `{}`", x)),
+    }
+}
+
+/// Move the value of a handle into a FRESH frozen heap in which nothing is allocated.
+fn rehome(h: &Handle, mode: &str, name: &str) -> Result<Handle, String> {
+    match mode {
+        "build" => Ok(OwnedFrozen::<Value<'static>>::build(
+            FrozenHeapName::user(name),
+            |heap: &FrozenHeap| {
+                let v: FrozenValue = h
+                    .as_ref()
+                    .add_to_frozen_heap(heap)
+                    .unpack_frozen()
+                    .expect("value of a frozen heap is frozen");
+                v.to_value()
+            },
+        )),
+        "build_edge" => Ok(OwnedFrozen::<Value<'static>>::build(
+            FrozenHeapName::user(name),
+            |heap: &FrozenHeap| {
+                let v: FrozenValue = h.by_ref_with_reconstructor(|v, r| {
+                    r.frozen_edge(heap)
+                        .rebrand(*v)
+                        .unpack_frozen()
+                        .expect("value of a frozen heap is frozen")
+                });
+                v.to_value()
+            },
+        )),
+        "heap" | "heap_named" => {
+            let heap = FrozenHeap::new();
+            heap.add_reference(h.owner());
+            let fv = frozen_of_handle(h);
+            let r = if mode == "heap" {
+                heap.into_ref()
+            } else {
+                heap.into_ref_named(FrozenHeapName::user(name))
+            };
+            // SAFETY (contract of unchecked_new): `r` references the owner of the value
+            Ok(unsafe { OwnedFrozen::<Value<'static>>::unchecked_new(r, fv.to_value()) })
+        }
+        x => Err(format!("bad-op mode `{}`", x)),
+    }
+}
+
+/// An open heap that only carries references.
+enum Carrier {
+    Heap {
+        heap: FrozenHeap,
+        /// last value added and the baseline encoding of the handle it came from
+        last: Option<(FrozenValue, Option<String>)>,
+    },
+    Globals {
+        builder: GlobalsBuilder,
+        baselines: Vec<(String, Option<String>)>,
+    },
 }
 
 enum PathElem {
@@ -525,6 +620,7 @@ struct State {
     handles: BTreeMap<i64, Handle>,
     globals: BTreeMap<i64, Globals>,
     builders: BTreeMap<i64, GlobalsBuilder>,
+    carriers: BTreeMap<i64, Carrier>,
     baseline: HashMap<Key, String>,
     /// sealed heap address -> label of the object whose creation sealed it
     labels: HashMap<usize, String>,
@@ -568,6 +664,7 @@ impl State {
             || self.handles.contains_key(&r)
             || self.globals.contains_key(&r)
             || self.builders.contains_key(&r)
+            || self.carriers.contains_key(&r)
     }
 
     fn fresh_rid(&self, o: &J, k: &str) -> Result<i64, String> {
@@ -607,7 +704,10 @@ impl State {
     }
 
     fn register(&mut self, heap: &FrozenHeapRef, rid: i64) {
-        self.labels.insert(heap_addr(heap), format!("r{}", rid));
+        // the shared empty ref (address 0) is nobody's heap
+        if heap_addr(heap) != 0 {
+            self.labels.insert(heap_addr(heap), format!("r{}", rid));
+        }
     }
 
     fn leave_module(&mut self, m: i64, w: usize) {
@@ -810,6 +910,106 @@ impl State {
                 self.frozen.insert(f, fm);
                 Ok(())
             }
+            "rehome" => {
+                let k2 = self.fresh_rid(o, "k2")?;
+                let mode = get_str(o, "mode")?.to_owned();
+                let (k, h) = self.handle_of(o, "k")?;
+                let h2 = rehome(h, &mode, &format!("carrier{}", k2))?;
+                self.register(h2.owner(), k2);
+                self.handles.insert(k2, h2);
+                // the very same value
+                if let Some(b) = self.baseline.get(&Key::Handle(k)).cloned() {
+                    self.baseline.insert(Key::Handle(k2), b);
+                }
+                if o["consume"].as_bool().unwrap_or(false) {
+                    self.handles.remove(&k);
+                    self.forget(k);
+                }
+                Ok(())
+            }
+            "new_carrier" => {
+                let b = self.fresh_rid(o, "b")?;
+                let c = match get_str(o, "kind")? {
+                    "heap" => Carrier::Heap {
+                        heap: FrozenHeap::new(),
+                        last: None,
+                    },
+                    "globals" => Carrier::Globals {
+                        builder: GlobalsBuilder::new(),
+                        baselines: Vec::new(),
+                    },
+                    x => return Err(format!("bad-op carrier kind `{}`", x)),
+                };
+                self.carriers.insert(b, c);
+                Ok(())
+            }
+            "add_to_carrier" => {
+                let name = get_str(o, "name")?.to_owned();
+                let mode = get_str(o, "mode")?.to_owned();
+                let b = get_rid(o, "b")?;
+                let k = get_rid(o, "k")?;
+                let h = match self.handles.get(&k) {
+                    Some(h) => h,
+                    None => return Err(format!("bad-op no handle {}", k)),
+                };
+                let base = self.baseline.get(&Key::Handle(k)).cloned();
+                match self.carriers.get_mut(&b) {
+                    None => Err(format!("bad-op no carrier {}", b)),
+                    Some(Carrier::Heap { heap, last }) => {
+                        let fv = add_handle_to_frozen_heap(h, heap, &mode)?;
+                        *last = Some((fv, base));
+                        Ok(())
+                    }
+                    Some(Carrier::Globals { builder, baselines }) => {
+                        if name.len() != 1 {
+                            return Err("bad-op a globals carrier takes 1-char names".to_owned());
+                        }
+                        let fv = add_handle_to_frozen_heap(h, builder.frozen_heap(), &mode)?;
+                        builder.set(&name, fv);
+                        baselines.retain(|(n, _)| *n != name);
+                        baselines.push((name, base));
+                        Ok(())
+                    }
+                }
+            }
+            "seal_carrier" => {
+                let b = get_rid(o, "b")?;
+                match self.carriers.remove(&b) {
+                    None => Err(format!("bad-op no carrier {}", b)),
+                    Some(Carrier::Heap { heap, last }) => {
+                        let named = o["named"].as_bool().unwrap_or(false);
+                        let r = if named {
+                            heap.into_ref_named(FrozenHeapName::user(format!("carrier{}", b)))
+                        } else {
+                            heap.into_ref()
+                        };
+                        match last {
+                            None => Err("bad-op sealing a heap carrier without a value".to_owned()),
+                            Some((fv, base)) => {
+                                self.register(&r, b);
+                                // SAFETY (contract of unchecked_new): `r` references the owner of the value
+                                let h = unsafe { OwnedFrozen::<Value<'static>>::unchecked_new(r, fv.to_value()) };
+                                self.handles.insert(b, h);
+                                if let Some(base) = base {
+                                    self.baseline.insert(Key::Handle(b), base);
+                                }
+                                Ok(())
+                            }
+                        }
+                    }
+                    Some(Carrier::Globals { builder, baselines }) => {
+                        let g = builder.build();
+                        self.register(g.heap(), b);
+                        self.globals.insert(b, g);
+                        for (n, base) in baselines {
+                            if let Some(base) = base {
+                                self.baseline.insert(Key::Glob(b, n), base);
+                            }
+                        }
+                        Ok(())
+                    }
+                }
+            }
             "clone" => {
                 let r = get_rid(o, "r")?;
                 let a = self.fresh_rid(o, "as")?;
@@ -853,6 +1053,10 @@ impl State {
                 let obj: Box<dyn Send> = if let Some(b) = self.builders.remove(&r) {
                     // builders are not Send: always dropped here
                     drop(b);
+                    return Ok(());
+                } else if let Some(c) = self.carriers.remove(&r) {
+                    // open frozen heaps are not Send either
+                    drop(c);
                     return Ok(());
                 } else if let Some(x) = self.frozen.remove(&r) {
                     Box::new(x)
@@ -905,7 +1109,7 @@ impl State {
         for (r, g) in &self.globals {
             let mut items: Vec<(String, FrozenValue)> = g
                 .iter()
-                .filter(|(n, _)| n.starts_with("g_"))
+                .filter(|(n, _)| n.starts_with("g_") || n.len() == 1)
                 .map(|(n, v)| (n.to_owned(), v))
                 .collect();
             items.sort_by(|a, b| a.0.cmp(&b.0));
@@ -972,6 +1176,7 @@ impl State {
                 None => "?".to_owned(),
             };
             refs.insert(format!("k{}", k), J::String(l));
+            refs.insert(format!("o{}", k), edges(h.owner(), &self.labels));
         }
         refs.insert("unknown".to_owned(), json!(unknown));
         (checked, viol, J::Object(refs))
@@ -988,6 +1193,7 @@ impl State {
         self.frozen.clear();
         self.globals.clear();
         self.builders.clear();
+        self.carriers.clear();
         self.baseline.clear();
     }
 
